@@ -1,6 +1,7 @@
 import NomtModel.Store.Placement
 import NomtModel.Store.PlacementAbs
 import NomtModel.Props.C04
+import NomtModel.Store.FreeListFresh
 /-!
 # C17 — The previous durable image stays intact until the switch-over
 
@@ -152,5 +153,96 @@ example :
   exact h.2 (Or.inl ⟨rfl, by decide, Or.inl (by decide)⟩)
 
 end link
+
+/-! ## The allocator clause: the free list writes its own pages only where nothing lives -/
+section allocator
+open Nomt.Store.FreeList
+
+/-- T17.5 **the free-list pages a sync writes are fresh.**  `s` is the allocator state at `start_sync` (model of
+`free_list.rs` / `allocator/mod.rs`, `Store/FreeListModel.lean`, tied to the real `FreeList` by the `alloc`
+differential), well-shaped, with `cap ≥ 2` page numbers per free-list page; the sync performs `n` allocations and
+frees `freed`.  Every page `w` that `finish` hands to `encode_head` (`r.written`) is a page that was FREE in the
+previous state — an item of its free list not handed out by this sync — or lies at / beyond the frontier reached
+by this sync's allocations.  Hence, when the tracked and the live pages of the previous state partition
+`[1, bump)`:
+* `w` is none of the pages that hold the previous free list (`headsOf s.portions`) — no free-list page of the
+  previous state is rewritten in place;
+* `w` is not a live page of the previous state;
+* `w` is not handed out to the tree by this sync's allocations (`handedOut s n`).
+
+Before repair F18 the first consequence was FALSE for the code and for the model that mirrored it: with
+`cap = 2`, previous list = page 1 holding {2} on top of the full page 10 holding {12, 11}, no allocation and
+`freed = [3]`, `commit` handed page 10 — a page of the previous list, untouched and full — to `encode_head`
+(`written = [10, 2]`; in the Rust code: `FreeList::commit` with portions `[(10, full), (1, [2])]` and
+`to_push = [3]` returned pages `[10, 2]`).  `push_and_encode` now skips the head that `preallocate` merely
+uncovered (`head_untouched`), `written = [2]` (second example below), and the statement is provable. -/
+theorem T17_5_written_pages_fresh (cap : Nat) (hc : 2 ≤ cap) (s : State) (n : Nat) (freed live : List Nat)
+    (r : Committed) (hw : WellShaped cap s.portions) (hfin : finish cap s n freed = some r)
+    (w : Nat) (hwr : w ∈ r.written) :
+    (w ∈ (itemsOf s.portions).drop n ∨ s.bump + (n - (itemsOf s.portions).length) ≤ w) ∧
+    (w ∈ itemsOf s.portions ∨ s.bump ≤ w) ∧
+    ((∀ a, (a ∈ pagesOf s.portions ∨ a ∈ live) ↔ (1 ≤ a ∧ a < s.bump)) →
+     (∀ a, ¬ (a ∈ pagesOf s.portions ∧ a ∈ live)) → (pagesOf s.portions).Nodup →
+       w ∉ headsOf s.portions ∧ w ∉ live ∧ w ∉ handedOut s n) := by
+  have h1 := finish_written hc hw hfin w hwr
+  have h2 : w ∈ itemsOf s.portions ∨ s.bump ≤ w := by
+    rcases h1 with h | h
+    · exact Or.inl (List.mem_of_mem_drop h)
+    · exact Or.inr (by omega)
+  refine ⟨h1, h2, ?_⟩
+  intro hu hd hn
+  have hcnt := count_pages_eq w s.portions
+  have hle : List.count w (pagesOf s.portions) ≤ 1 := List.nodup_iff_count.mp hn w
+  have hlt_of_mem : ∀ a, a ∈ pagesOf s.portions → a < s.bump := fun a ha => ((hu a).mp (Or.inl ha)).2
+  refine ⟨?_, ?_, ?_⟩
+  · intro hh
+    have c1 : 1 ≤ List.count w (headsOf s.portions) := List.one_le_count_iff.mpr hh
+    rcases h2 with h | h
+    · have c2 : 1 ≤ List.count w (itemsOf s.portions) := List.one_le_count_iff.mpr h
+      omega
+    · have : w ∈ pagesOf s.portions := List.one_le_count_iff.mp (by omega)
+      have := hlt_of_mem w this
+      omega
+  · intro hl
+    rcases h2 with h | h
+    · exact hd w ⟨mem_items_mem_pages w _ h, hl⟩
+    · have := ((hu w).mp (Or.inr hl)).2
+      omega
+  · intro hh
+    have c1 : 1 ≤ List.count w (handedOut s n) := List.one_le_count_iff.mpr hh
+    rw [count_handedOut] at c1
+    have hsplit := congrArg (List.count w) (List.take_append_drop n (itemsOf s.portions))
+    rw [List.count_append] at hsplit
+    rcases h1 with h | h
+    · have c2 : 1 ≤ List.count w ((itemsOf s.portions).drop n) := List.one_le_count_iff.mpr h
+      have hwlt := hlt_of_mem w (mem_items_mem_pages w _ (List.mem_of_mem_drop h))
+      have hr : rng w s.bump (s.bump + (n - (itemsOf s.portions).length)) = 0 := by
+        unfold rng; split <;> omega
+      omega
+    · have hr : rng w s.bump (s.bump + (n - (itemsOf s.portions).length)) = 0 := by
+        unfold rng; split <;> omega
+      have ht : List.count w ((itemsOf s.portions).take n) = 0 := by
+        rw [List.count_eq_zero]
+        intro hm
+        have := hlt_of_mem w (mem_items_mem_pages w _ (List.mem_of_mem_take hm))
+        omega
+      omega
+
+/-- non-vacuity (capacity 2): previous frontier 13, live pages 3 … 9, free list = page 1 holding {2} over the
+full page 10 holding {12, 11}.  One allocation (page 2) and one freed page (3): `discard` empties the head, the
+rest of the old list is consumed for the new one; the sync writes the free-list pages 11 and 12 — both free
+pages of the previous list, neither handed out — and the pages 1 and 10 that held the previous list become free
+pages of the new one (they are not written). -/
+example : (finish 2 { portions := [(1, [2]), (10, [12, 11])], released := [], pop := false, bump := 13 } 1 [3]).map
+    (fun r => (r.written, r.state.portions, r.state.bump)) = some ([11, 12], [(12, [10]), (11, [1, 3])], 13) := by
+  decide
+
+/-- the configuration that exhibited F18, after the repair: only page 2 is written, page 10 is not -/
+example : (commit 2 { portions := [(1, [2]), (10, [12, 11])], released := [], pop := false, bump := 100 } [3]).map
+    (fun r => (r.written, r.state.portions)) = some ([2], [(2, [1, 3]), (10, [12, 11])]) := by decide
+
+example : WellShaped 2 [(1, [2]), (10, [12, 11])] := by simp [WellShaped, TailFull]
+
+end allocator
 
 end Nomt.C17
